@@ -324,9 +324,16 @@ impl Frame {
             );
             match lf_global {
                 Ok(lf_global) => {
+                    // The position after a partially decoded section is not where the next
+                    // section starts; 0 means "not known yet".
+                    let next = if lf_global.gmodular.is_partial() {
+                        0
+                    } else {
+                        bitstream.num_read_bits()
+                    };
                     self.all_group_offsets
                         .lf_group
-                        .store(bitstream.num_read_bits(), Ordering::Relaxed);
+                        .store(next, Ordering::Relaxed);
                     Ok(lf_global)
                 }
                 Err(e) if !loaded && e.unexpected_eof() => Err(e),
@@ -380,6 +387,10 @@ impl Frame {
                 }
             }
             let offset = self.all_group_offsets.lf_group.load(Ordering::Relaxed);
+            if offset == 0 {
+                // LfGlobal is not complete yet.
+                return None;
+            }
             bitstream.skip_bits(offset).unwrap();
 
             let result = LfGroup::parse(
@@ -398,9 +409,14 @@ impl Frame {
 
             match result {
                 Ok(result) => {
+                    let next = if result.partial {
+                        0
+                    } else {
+                        bitstream.num_read_bits()
+                    };
                     self.all_group_offsets
                         .hf_global
-                        .store(bitstream.num_read_bits(), Ordering::Relaxed);
+                        .store(next, Ordering::Relaxed);
                     Some(Ok(result))
                 }
                 Err(e) if !loaded && e.unexpected_eof() => None,
@@ -494,6 +510,10 @@ impl Frame {
                 }
             }
             let offset = self.all_group_offsets.hf_global.load(Ordering::Relaxed);
+            if offset == 0 {
+                // LfGroup is not complete yet.
+                return None;
+            }
 
             if self.header.encoding == header::Encoding::Modular {
                 self.all_group_offsets
